@@ -47,7 +47,7 @@ def monitor(hdr, cmd, pre, res, post, info, tconst):
     ret, calls, herr, thrown = res
     fl, arch, hk = hdr["fl"], hdr["arch"], hdr["h"]
     where = "%s/%s" % (ARCH[arch], FL[fl])
-    kind = "I" if cmd[0] in ("J", "K", "V", "PP", "LS", "SH", "V2") else cmd[0]
+    kind = "I" if cmd[0] in ("J", "K", "V", "PP", "LS", "SH", "V2", "LP", "MV", "LV", "VR") else cmd[0]
     failed = ret != 0 or thrown
     setter = kind in ("O", "X", "M")
     if failed:
@@ -81,6 +81,20 @@ def monitor(hdr, cmd, pre, res, post, info, tconst):
             out.append(("C14/%s/%s/handler-called-on-success" % (where, kind), "successful call invoked the error handler %d times" % calls))
         if kind == "I" and one_of(post) != "0:0:0:0":
             out.append(("C14/%s/one-shot-state-not-consumed" % where, "after an accepted instruction the one-shot state is %s" % one_of(post)))
+        if fl == 0 and cmd[0] in ("K", "V", "V2", "VR", "PP", "SH", "MV", "LS", "LP", "LV"):
+            # an accepted instruction without a label operand appends bytes to the current section and may create one relocation;
+            # labels, fixups, address table, nodes, current section and the other sections stay as they are (independent of the model)
+            def fld(t, k):
+                return t.split(k + "=")[1].split()[0]
+            sz0, sz1 = fld(pre, "sz").split(","), fld(post, "sz").split(",")
+            cur = int(fld(pre, "cur"))
+            same = all(fld(pre, k) == fld(post, k) for k in ("cur", "lab", "fix", "adr", "nod"))
+            others = len(sz0) == len(sz1) and all(a0 == b0 for i, (a0, b0) in enumerate(zip(sz0, sz1)) if i != cur)
+            grew = len(sz0) == len(sz1) and cur < len(sz0) and (int(sz1[cur]) - int(sz0[cur]) == 4 if arch == 2 else 1 <= int(sz1[cur]) - int(sz0[cur]) <= 15)
+            drel = int(fld(post, "rel")) - int(fld(pre, "rel"))
+            if not (same and others and grew and 0 <= drel <= 1):
+                out.append(("C14/%s/accepted-instruction-side-effect" % where, "an accepted instruction without a label operand changed more than the size of the current section "
+                            "(by an instruction length) and at most one relocation: before [%s] after [%s]" % (pre, post)))
         if kind == "I" and "badreg" in info:
             m = re.search(r"badreg enc=(\d+)((?: \S+)*?) inst", info)
             enc = int(m.group(1)); ops = m.group(2).split()
@@ -200,6 +214,18 @@ def run_shard(args):
                 res["classes"][key] = res["classes"].get(key, 0) + 1
             if cmd[0] == "SH":
                 key = "shift r,imm path/%s" % ("err %d" % r[0] if failed else "ok %s bytes" % (int(post.split("sz=")[1].split()[0].split(",")[int(post.split("cur=")[1].split()[0])]) - int(pre.split("sz=")[1].split()[0].split(",")[int(pre.split("cur=")[1].split()[0])])))
+                res["classes"][key] = res["classes"].get(key, 0) + 1
+            if cmd[0] == "MV":
+                key = "mov r,[mem] / moffs path/%s" % ("err %d" % r[0] if failed else "ok %s bytes" % (int(post.split("sz=")[1].split()[0].split(",")[int(post.split("cur=")[1].split()[0])]) - int(pre.split("sz=")[1].split()[0].split(",")[int(pre.split("cur=")[1].split()[0])])))
+                res["classes"][key] = res["classes"].get(key, 0) + 1
+            if cmd[0] == "VR":
+                key = "vex/evex register path vaddps/%s" % ("err %d" % r[0] if failed else "ok %s bytes" % (int(post.split("sz=")[1].split()[0].split(",")[int(post.split("cur=")[1].split()[0])]) - int(pre.split("sz=")[1].split()[0].split(",")[int(pre.split("cur=")[1].split()[0])])))
+                res["classes"][key] = res["classes"].get(key, 0) + 1
+            if cmd[0] == "LV":
+                key = "a64 simd load/store path/%s" % ("err %d" % r[0] if failed else "ok")
+                res["classes"][key] = res["classes"].get(key, 0) + 1
+            if cmd[0] == "LP":
+                key = "a64 load/store pair path/%s" % ("err %d" % r[0] if failed else "ok")
                 res["classes"][key] = res["classes"].get(key, 0) + 1
             if cmd[0] == "LS":
                 key = "a64 load/store path/%s" % ("err %d" % r[0] if failed else "ok")
@@ -332,7 +358,13 @@ def regen_mine(ck, files):
         open(os.path.join(wgen, n), "w").write(t)
     args = ["-Q", os.path.join(vlib.COQ, "theories"), "Verif", "-Q", wgen, "VerifGen", "-w", "-all"]
     failed, log = [], ""
+    changed = False
     for n in GEN_MINE:
+        vo = os.path.join(gen, n + "o")
+        if not changed and n not in files and os.path.exists(vo) and os.path.getmtime(vo) >= os.path.getmtime(os.path.join(gen, n)):
+            shutil.copy(vo, wgen)          # unchanged and nothing it depends on changed (GEN_MINE is in dependency order): reuse the compiled file
+            continue
+        changed = True
         rc, out, err = vlib.sh(["coqc"] + args + [os.path.join(wgen, n)], cwd=wgen, timeout=900)
         if rc != 0:
             failed.append(n)
@@ -553,7 +585,15 @@ def run(ck):
          "rule": "one evaluation = one public emitter call of a generated session executed on the real emitter under ASan+UBSan AND predicted by the extracted "
                  "model; non-trivial = every call except the one-shot setters (instructions valid/perturbed/arbitrary, bind, align, embed, embed_label, "
                  "section, new_section, new_label, new_named_label); distinct because every session/call is drawn independently from VERIF_SEED",
-         "samples": total.get("samples", [])[:6],
+         "example_failed_instruction_calls": total.get("samples", [])[:6],
+         "proved_vs_compared": {
+             "proved": "every theorem listed under `theorems` is a universally quantified statement about the Gallina model (no enumeration of inputs); the table-bound lemmas are "
+                       "decided by reflection over the COMPLETE dumped tables / instruction rows, not over a subset",
+             "compared_on_every_call": "return value, handler call count, handler error, thrown flag and the full state snapshot (section sizes, current section, every label, fixup / "
+                                       "relocation / address-table / node counts, one-shot state) predicted by the extracted model vs the real emitter; a hash of section bytes and nodes vs the fresh emitter",
+             "verdict_computed_by_the_model": {k: (total.get("by_kind") or {}).get(k, 0) for k in ("J", "K", "V", "V2", "PP", "SH", "LS", "LP", "LV", "MV", "VR", "B", "CP", "ELD", "EL", "A", "E", "S", "NS", "L", "NL")},
+             "verdict_reported_by_the_implementation": (total.get("by_kind") or {}).get("I", 0),
+             "deterministic_exhaustive_sweeps": ["AArch64 register ids per discovered form (sweep)", "x86 instructions / forms without an EVEX encoding against vector ids 16..31 (sweep-vexonly)"]},
          "sessions": total["sessions"], "sessions_skipped_after_repeated_aborts": total.get("skipped_sessions", 0), "failed_calls": total["failed_calls"], "failed_calls_with_throwing_handler": total["thrown"],
          "accepted_instructions": total["ok_insts"], "fresh_emitter_comparisons": total["fresh_checked"],
          "calls_by_kind": total.get("by_kind"), "sessions_by_config": total.get("by_cfg"), "instruction_classes": total.get("classes"),
@@ -572,7 +612,8 @@ def run(ck):
                      "effect of a refused call, of every non-instruction call, the handler protocol and the state equality with a fresh emitter",
                      "look-up index sets are derived from operand-signature field widths / validator masks / instruction tables printed by harness/c14_dump.cpp; "
                      "the index EXPRESSIONS were transcribed by hand from x86assembler.cpp / a64assembler.cpp (tools/c14_tables.py site list)",
-                     "label references to a label bound in another section (DESIGN 7.14, C03) are not generated"],
+                     "for the instruction families J/K/V/V2/PP/SH/LS the verdict (accepted with N bytes / refused with error e) is computed by the model and compared; "
+                     "for all other instructions (I lines) it is an input of the model"],
         checker_cmd="coqc (Coq 8.16.1) -Q coq/theories Verif -Q coq/gen VerifGen coq/theories/Properties/Properties_C14.v  [full .vo build of its dependencies]",
         trusted_base=["Coq 8.16.1 kernel incl. vm_compute (no native_compute)", "no axioms: every theorem 'Closed under the global context'",
                       "extraction (ExtrOcamlBasic only) + OCaml 4.13.1 + zarith glue in ml/zconv.ml + ml/c14_driver.ml",
